@@ -159,12 +159,21 @@ def project_sig(res, variant, wform="blind", sform="pinned"):
     zlist, zcanc, fwds = [], None, []
     zopen = [False]       # Z took thd_mutex for the signal it is handling and `obs list` was not sent yet
 
-    def flush_list():
+    zcopen = [False]      # Z took threadcount_mutex in _cancel_pending_threads and `obs canc` was not sent yet
+
+    def flush_list(final=False):
         # what the listing named is compared when the signals thread is done with the signal (before its next sigwait,
         # its end, the end of the run) - not at the unlock: the lines may be printed from a snapshot after the unlock
         if zopen[0]:
             L.append("obs list " + (",".join(map(str, zlist)) or "-"))
             zopen[0] = False
+        # the same for "Canceled n pending threads.": printed inside the critical section (dsh.c as pinned) or after
+        # threadcount_mutex was released (harmless change C20-H4) - compared when the handler is done.  A run that ends
+        # inside the handler may not have printed it yet
+        if zcopen[0]:
+            if not (final and zcanc is None):
+                L.append("obs canc %s" % ("?" if zcanc is None else zcanc))
+            zcopen[0] = False
     evs = ordered(res)
     for pos, (kind, s, ev) in enumerate(evs):
         th = ev[0]
@@ -234,11 +243,10 @@ def project_sig(res, variant, wform="blind", sform="pinned"):
                 zopen[0] = True
             elif fe[1] == "lock":
                 zcanc = None
-            elif fe[1] == "unlock":
-                L.append("obs canc %s" % ("?" if zcanc is None else zcanc))
+                zcopen[0] = True
             elif fe[1] == "fwd":
                 fwds.append(fe[2])
-    flush_list()
+    flush_list(final=True)
     L.append("obs fwds " + (",".join(fwds) or "-"))
     status = m.get("status", "crash")
     if status == "deadlock" and res.get("last_S"):
